@@ -101,10 +101,7 @@ def check_cat(res, out, s, v, drive, cur_dir, ui, files, argv):
     has_single = bool(re.search(r'(^|[^M])FM', hdr_nt)) or ('Single density' in hdr_nt)
     if double != has_double or (not double) != has_single:
         bad.append('density shown wrongly for %s' % s.density)
-    m = re.search(r'Drive (\S+)', hdr)
-    want_drive = '%d%s' % (drive, v.label or '')
-    if not m or m.group(1) != want_drive:
-        bad.append('drive %s not shown (%r)' % (want_drive, m.group(0) if m else None))
+    # (the drive shown in the header is not part of the statement and is not judged)
     got = sorted((d or '', n, l) for (d, n, l) in p['entries'])
     exp = sorted(('' if e.dir == cur_dir else e.dir, e.name, e.locked) for e in ents)
     if got != exp:
